@@ -216,45 +216,77 @@ def run_c11(res, ast, rules=("TEMPS-BY-CONSTRUCTION", "WINDOW-BY-CONSTRUCTION", 
                 n = sum(1 for f in v["fields"]["fields"] if f["ty"]["s"].startswith("Loc"))
                 if n:
                     loc_variants[v["name"]] = n
-            ms = [m for m in walk_t(ct["body"], "Match")]
-            cov = {}
-            for m in ms:
-                for a in m["arms"]:
-                    for v, names in arm_variants(a):
-                        if v == "_":
-                            continue
-                        calls = [c for c in walk_t(a["body"], "Call") if path_name(c["func"]) == "get_max"]
-                        passed = []
-                        for c in calls:
-                            arr = c["args"][0]
-                            while arr["t"] in ("Reference", "Paren"):
-                                arr = arr["expr"]
-                            if arr["t"] == "Array":
-                                passed = [path_name(strip_paren(x)) for x in arr["elems"]]
-                        cov[v] = (names, passed)
+            # count_temps evaluated on representative programs: one instruction of each variant with temporaries at every subset of its
+            # Loc positions (distinct indices, each position in turn holding the largest), and two-instruction programs for the fold
+            import itereval, itertools
+            from rusteval import Env as _Env, ReturnEx as _Ret, Unanalysable as _Un, Reached as _Re
+
+            class TI(itereval.IterInterp):
+                def __init__(self, insts):
+                    super().__init__()
+                    self.insts = insts
+
+                def field(self, base, member, node):
+                    if base == "self" and member == "insts":
+                        return self.insts
+                    return super().field(base, member, node)
+
+                def eval(self, e, env):
+                    if e.get("t") == "PathExpr" and e["path"]["name"] == "self":
+                        return "self"
+                    return super().eval(e, env)
+
+                def path_value(self, name, node):
+                    raise _Un(f"path {name}")
+
+            def loc(kind, v):
+                return itereval.Ctor("Loc::" + kind, [v])
+
+            def run_ct(insts):
+                it = TI(insts)
+                try:
+                    return it.exec_block(ct["body"], _Env())
+                except _Ret as r_:
+                    return r_.value
+            all_variants = {v["name"]: v for v in en["variants"]}
+            others = [itereval.Ctor("Instr::" + v["name"], [7] * len(v["fields"]["fields"])) for v in en["variants"] if v["name"] not in loc_variants]
             for v, n in loc_variants.items():
-                names, passed = cov.get(v, ([], []))
-                ok = len(names) == n and all(isinstance(x, str) for x in names) and sorted(passed) == sorted(names)
-                res.check(ok, "TEMPS-BY-CONSTRUCTION", f"{BC}|count_temps|{v}", where(BC, ct, "count_temps"),
-                          f"count_temps: Instr::{v} has {n} locations but get_max sees {passed}: a temporary index can exceed Program.temps")
-            gm = [f for f in ast.find_fns(BC, "get_max")]
-            import pm
-            okg = len(gm) == 1 and bool(pm.find_expr(gm[0]["node"]["body"], "if let Loc::Tmp(__v_t) = __v_l { *__v_t + 1 } else { 0 }")) and ".max()" in T(ast, gm[0]["node"]["body"])
-            res.check(okg, "TEMPS-BY-CONSTRUCTION", f"{BC}|get_max", where(BC, gm[0]["node"], "get_max") if gm else BC,
-                      "get_max must map Loc::Tmp(t) to t + 1 (else 0) and take the maximum")
-            # the per-instruction values are folded with max over *all* instructions: iterator chain or running-maximum loop
-            tail = ct["body"]["stmts"][-1] if ct["body"]["stmts"] else None
-            fold = False
-            if tail is not None and tail["t"] == "ExprStmt" and not tail["semi"]:
-                fold = pm.match_expr(tail["expr"], "self.insts.iter().map(__e_f).max().unwrap_or(0)") is not None
-            if not fold:
-                body_ = [s_ for s_ in ct["body"]["stmts"] if s_["t"] not in ("Fn", "Item")]
-                for upd in ("if __v_n > __v_acc { __v_acc = __v_n; }", "if __v_acc < __v_n { __v_acc = __v_n; }", "__v_acc = __v_acc.max(__v_n);", "__v_acc = __v_n.max(__v_acc);",
-                            "__v_acc = max(__v_acc, __v_n);"):
-                    for src_ in ("&self.insts", "self.insts.iter()"):
-                        if pm.match_stmts(body_, "let mut __v_acc = 0; for __v_inst in " + src_ + " { let __v_n = __e_m; " + upd + " } __v_acc") is not None:
-                            fold = True
-            res.check(fold, "TEMPS-BY-CONSTRUCTION", f"{BC}|count_temps|fold", where(BC, ct, "count_temps"), "count_temps must fold the per-instruction values with max")
+                bad_ = []
+                nev = 0
+                fields = all_variants[v]["fields"]["fields"]
+                locpos = [i_ for i_, f_ in enumerate(fields) if f_["ty"]["s"].startswith("Loc")]
+                for r_ in range(0, n + 1):
+                    for tpos in itertools.combinations(range(n), r_):
+                        for top in (tpos or (None,)):
+                            vals = []
+                            want = 0
+                            for k_ in range(n):
+                                if k_ in tpos:
+                                    idx = 40 if k_ == top else 3 + k_
+                                    vals.append(loc("Tmp", idx))
+                                    want = max(want, idx + 1)
+                                else:
+                                    vals.append(loc("Mem", 90 + k_) if k_ % 2 == 0 else loc("Imm", 77))
+                            fv = [7] * len(fields)
+                            for k_, p_ in enumerate(locpos):
+                                fv[p_] = vals[k_]
+                            inst = itereval.Ctor("Instr::" + v, fv)
+                            for prog in ([inst], [inst] + others, others + [inst], [itereval.Ctor("Instr::" + v, [loc("Tmp", 1) if i_ in locpos else 7 for i_ in range(len(fields))]), inst]):
+                                nev += 1
+                                try:
+                                    got = run_ct(prog)
+                                    if not (isinstance(got, int) and not isinstance(got, bool) and got >= want):
+                                        bad_.append(f"a program with {inst!r} declares {got!r} temporaries, needs at least {want}")
+                                except (_Un, _Re, KeyError, TypeError, IndexError) as u_:
+                                    bad_.append(f"cannot be analysed (fail closed): {u_}")
+                res.evaluations += nev
+                res.check(not bad_, "TEMPS-BY-CONSTRUCTION", f"{BC}|count_temps|{v}", where(BC, ct, "count_temps"),
+                          f"count_temps: Instr::{v}: " + "; ".join(sorted(set(bad_))[:2]) + ": a temporary index can exceed Program.temps")
+            try:
+                empty = run_ct([]) == 0 and run_ct(others) == 0
+            except (_Un, _Re, KeyError, TypeError, IndexError):
+                empty = False
+            res.check(empty, "TEMPS-BY-CONSTRUCTION", f"{BC}|count_temps|fold", where(BC, ct, "count_temps"), "count_temps of a program without temporaries must be 0 and must be analysable")
             tr = ast.fn(BC, "translate")["node"]
             cgn = [l_["pat"]["name"] for l_ in walk_t(tr["body"], "Local") if l_["pat"]["t"] == "PIdent" and l_["init"] is not None
                    and strip_paren(l_["init"])["t"] == "StructExpr" and strip_paren(l_["init"])["path"]["name"] == "CodeGen"]
